@@ -183,14 +183,18 @@ fn mro_history(ctx: &mut Ctx, ops: &[Op], key_seed: u64) -> Result<(), (usize, F
     let f0 = snapshot(&world);
     let ops0 = world.lock().unwrap().op_counter;
     drop(sut);
-    match build_core(&world, Some(keypair(&ops::key_from_seed(key_seed), true)), true, CacheMode::None) {
-        Ok(Err(HypercoreError::BadArgument { .. })) => {}
-        Ok(Err(e2)) => return Err((ops.len(), fail(format!("keypair-with-open:wrong-error:{}", ops::err_sig(&e2)), format!("{e2}")))),
-        Ok(Ok(_)) => return Err((ops.len(), fail("keypair-with-open:accepted", "builder accepted a key pair together with open(true)"))),
-        Err(p) => return Err((ops.len(), fail(format!("keypair-with-open:panic:{}", exec::panic_sig(&p)), p))),
-    }
-    if snapshot(&world) != f0 || world.lock().unwrap().op_counter != ops0 {
-        return Err((ops.len(), fail("keypair-with-open:touched-storage", "rejected build touched the stores")));
+    // (every kind of key pair: the core's own or another one, with or without the secret half)
+    for (ks, with_secret, what) in [(key_seed, true, "own-full"), (key_seed, false, "own-public-only"), (key_seed ^ 0x77, true, "other-full"), (key_seed ^ 0x77, false, "other-public-only")] {
+        match build_core(&world, Some(keypair(&ops::key_from_seed(ks), with_secret)), true, CacheMode::None) {
+            Ok(Err(HypercoreError::BadArgument { .. })) => {}
+            Ok(Err(e2)) => return Err((ops.len(), fail(format!("keypair-with-open:{what}:wrong-error:{}", ops::err_sig(&e2)), format!("{e2}")))),
+            Ok(Ok(_)) => return Err((ops.len(), fail(format!("keypair-with-open:{what}:accepted"), "builder accepted a key pair together with open(true)"))),
+            Err(p) => return Err((ops.len(), fail(format!("keypair-with-open:{what}:panic:{}", exec::panic_sig(&p)), p))),
+        }
+        if snapshot(&world) != f0 || world.lock().unwrap().op_counter != ops0 {
+            return Err((ops.len(), fail(format!("keypair-with-open:{what}:touched-storage"), "rejected build touched the stores")));
+        }
+        ctx.count("keypair_kinds_with_open_rejected");
     }
     ctx.count("keypair_with_open_rejected");
     Ok(())
